@@ -1,6 +1,6 @@
 (* C07 — the variable mapping is a faithful description of the assembled problem. *)
 From Coq Require Import QArith List String Bool.
-From EAO Require Import Num LP Mapping Dcf Assets Portfolio.
+From EAO Require Import Num LP Mapping Dcf Assets Portfolio Split.
 Import ListNotations.
 Open Scope Q_scope.
 
@@ -91,3 +91,20 @@ Theorem C07_contract_builder_wf :
   wf_lp (ap_lp a) /\ Forall (fun r => m_asset r = cp_name p /\ (m_var r < nvars (ap_lp a))%nat) (ap_map a).
 Proof. exact contract_builder_wf. Qed.
 Print Assumptions C07_contract_builder_wf.
+
+(* split set-up (Portfolio.setup_split_optim_problem): the joint mapping re-bases the mapping of every interval problem.  Every row of
+   it points into the variable block of ITS OWN interval - the k-th block starts after the variables of the k earlier intervals -
+   and to a step of that interval's list of original steps *)
+Theorem C07_split_rows_point_into_their_interval :
+  forall parts off,
+  Forall (fun Ia => Forall (fun r => (m_step r < List.length (fst Ia))%nat /\ (m_var r < nvars (ap_lp (snd Ia)))%nat) (ap_map (snd Ia))) parts ->
+  Forall (fun r => exists k Ia, nth_error parts k = Some Ia /\
+                   (off + off_at parts k <= m_var r < off + off_at parts k + part_nv Ia)%nat /\ In (m_step r) (fst Ia))
+         (split_map parts off).
+Proof. exact split_map_own_block. Qed.
+Print Assumptions C07_split_rows_point_into_their_interval.
+Example C07_split_nonvacuous :
+  let a1 := {| ap_lp := Build_lp [1; 2] [0; 0] [1; 1] []; ap_map := [Build_mrow 1 "a"%string (Some "N"%string) "d"%string 0 1 "disp"%string false] |} in
+  let a2 := {| ap_lp := Build_lp [3] [0] [1] []; ap_map := [Build_mrow 0 "a"%string (Some "N"%string) "d"%string 1 1 "disp"%string false] |} in
+  map (fun r => (m_var r, m_step r)) (split_map [([0; 1]%nat, a1); ([2; 3]%nat, a2)] 0) = [(1, 0); (2, 3)]%nat.
+Proof. vm_compute. reflexivity. Qed.
